@@ -410,3 +410,16 @@ def write_replay(ctx: Ctx, sig: str, case: Any, detail: dict) -> Path:
 
 def eprint(*a: Any) -> None:
     print(*a, file=sys.stderr, flush=True)
+
+
+def in_sympy_piecewise_eval(e: BaseException) -> bool:
+    """True when a RecursionError comes from sympy's Piecewise.eval calling itself without end."""
+    if not isinstance(e, RecursionError):
+        return False
+    tb = e.__traceback__
+    n = 0
+    while tb is not None:
+        if tb.tb_frame.f_code.co_filename.endswith("sympy/functions/elementary/piecewise.py") and tb.tb_frame.f_code.co_name == "eval":
+            n += 1
+        tb = tb.tb_next
+    return n >= 10
